@@ -24,6 +24,7 @@ pub mod c15;
 pub mod c18;
 #[cfg(feature = "native")]
 pub mod c19;
+pub mod c20;
 
 pub fn lookup(id: &str) -> Option<Box<dyn Check>> {
     match id {
@@ -46,6 +47,7 @@ pub fn lookup(id: &str) -> Option<Box<dyn Check>> {
         "C15" => Some(Box::new(c15::C15)),
         #[cfg(feature = "native")]
         "C19" => Some(Box::new(c19::C19)),
+        "C20" => Some(Box::new(c20::C20)),
         "C18" => Some(Box::new(c18::C18)),
         _ => None,
     }
